@@ -40,6 +40,11 @@ UNITS.append(q2('inv', '''  __CPROVER_assert (sn != 0, "[C12][C02] returned norm
   __CPROVER_assert (s != d ==> ((long) V_SIZ (V_NUM (s)) == sn && (long) V_SIZ (V_DEN (s)) == sd && (gk < nn ==> V_PTR (V_NUM (s))[gk] == Nk) && (gk < sd ==> V_PTR (V_DEN (s))[gk] == Dk)), "[C05] source unchanged");
 ''', [(r'den_size = -den_size;', ';'), (r'if \(num_size == 0\)', 'if (den_size == 0)'),
       (r'dest->_mp_den._mp_alloc = alloc;', 'dest->_mp_den._mp_alloc = dest->_mp_num._mp_alloc;')]))
+from c03_mpz import split_alias
+_Q2 = list(UNITS); del UNITS[:]
+for _u in _Q2:
+    UNITS.extend(split_alias(_u, '  mpq_ptr d = &D; mpq_srcptr s = &S; if (nondet_bool ()) s = d;\n',
+                             [('', '  mpq_ptr d = &D; mpq_srcptr s = &S;\n'), ('ds', '  mpq_ptr d = &D; mpq_srcptr s = d;\n')]))
 for u in UNITS:
     u['timeout'] = 900
 
@@ -62,8 +67,16 @@ def part(op, field, getter=False):
                         '  __CPROVER_assert ((long) V_SIZ (%s) == ss, "[C12] size and sign copied");\n'
                         '  __CPROVER_assert (gk < sn ==> V_PTR (%s)[gk] == Sk, "[C12][C05] limbs copied exactly");\n}' % (op, objs, pre, src, src, call, dst, dst),
                 selftest=[(f, r'_mp_alloc < (abs_)?size', lambda m: m.group(0) + ' - 1')])
-UNITS.append(part('set_num', '_mp_num'))
-UNITS.append(part('set_den', '_mp_den'))
+# the three alias partitions of (q, z) as separate runs: one run over all three took 340 s and was unstable under load
+for _op, _f in (('set_num', '_mp_num'), ('set_den', '_mp_den')):
+    for _tag, _al in (('', ''), ('_an', 'z = V_NUM (q);'), ('_ad', 'z = V_DEN (q);')):
+        _u = part(_op, _f)
+        _u['name'] += _tag
+        _u['harness'] = _u['harness'].replace('h_mpq_' + _op, 'h_mpq_' + _op + _tag).replace(
+            'if (nondet_bool ()) z = V_NUM (q); else if (nondet_bool ()) z = V_DEN (q);', _al)
+        if _tag:
+            _u['selftest'] = []
+        UNITS.append(_u)
 UNITS.append(part('get_num', '_mp_num', True))
 UNITS.append(part('get_den', '_mp_den', True))
 UNITS.append(dict(name='mpq_set_z', props=P, source='mpq/set_z.c', contracts=['mpn.h', 'mpz.h', 'c11.h', 'mpq.h'],
